@@ -20,13 +20,13 @@ const HEADER: &str = "From RV Require Import Corr.C17.\nLocal Open Scope string_
 
 /// visible keyspace incl. the exact stored values (raw Value clones of every visible key)
 #[derive(Clone, PartialEq, Debug)]
-struct Vis { snap: Snapshot, raw: Vec<(String, Value)>, stale: Vec<String> }
+struct Vis { snap: Snapshot, raw: Vec<(String, String)>, stale: Vec<String> }
 
 /// read WITHOUT purging (EXISTS, PTTL, DBSIZE, KEYS * and clones of the stored values): a key past its deadline
 /// counts as absent whether or not it has been evicted, and looking does not evict it
 fn visible(im: &mut Impl) -> Result<Vis, String> {
     let (snap, stale) = snapshot_nopurge(im, &KEYS)?;
-    let mut raw: Vec<(String, Value)> = snap.iter().filter(|e| e.2 >= -1).filter_map(|(k, _, _)| im.ex.get_data().get(k).map(|v| (k.clone(), v.clone()))).collect();
+    let mut raw: Vec<(String, String)> = snap.iter().filter(|e| e.2 >= -1).filter_map(|(k, _, _)| im.ex.get_data().get(k).map(|v| (k.clone(), full_dump(v)))).collect();
     raw.sort_by(|a, b| a.0.cmp(&b.0));
     Ok(Vis { snap, raw, stale })
 }
@@ -56,10 +56,23 @@ fn setup(g: &mut Gen) -> Vec<MCmd> {
 }
 
 /// a command outside the model (or a model command, half of the time)
-fn full_cmd(g: &mut Gen) -> (String, Command) {
+fn full_cmd(g: &mut Gen, loaded_sha: &Option<String>) -> (String, Command) {
     let k = |g: &mut Gen| g.pick(&KEYS).to_string();
     let sd = |b: &[u8]| SDS::new(b.to_vec());
     if g.chance(0.45) { let c = g.cmd(); return (c.to_coq(), c.to_rust()); }
+    // sizes well above any plausible optimisation threshold (implementation-only part: nothing is printed for Coq):
+    // 64 KiB +- 1 and 1 MiB values through SET / APPEND / SETRANGE / LPUSH / HSET, 3000 members in one SADD, 300 in one ZADD (the debug build re-verifies the whole skiplist on every insertion)
+    if g.chance(0.008) {
+        let n = g.pick(&[65535usize, 65536, 65537, 65536, 1 << 20]);
+        let big = SDS::new(vec![g.pick(&[b'x', 0u8]); n]);
+        let c = match g.rng.gen_range(0..7) {
+            0 => Command::set(k(g), big), 1 => Command::Append(k(g), big), 2 => Command::SetRange(k(g), g.pick(&[0usize, 1, 65536]), big),
+            3 => Command::LPush(k(g), vec![big]), 4 => Command::HSet(k(g), vec![(sd(b"f"), big)]),
+            5 => Command::SAdd(k(g), (0..3000).map(|i| SDS::new(format!("m{}", i).into_bytes())).collect()),
+            _ => Command::ZAdd { key: k(g), pairs: (0..300).map(|i| ((i % 97) as f64, SDS::new(format!("m{}", i).into_bytes()))).collect(), nx: false, xx: false, gt: false, lt: false, ch: false },
+        };
+        return (format!("{:.120}", format!("{:?}", c)), c);
+    }
     let c = match g.rng.gen_range(0..60) {
         0..=3 => Command::IncrByFloat(k(g), g.pick(&[1.5, -2.25, 0.0, 1e308, -1e308, f64::NAN, f64::INFINITY, 1e-300, 3.0])),
         4..=6 => Command::SetBit(k(g), g.pick(&[0u64, 1, 7, 8, 100, 4294967296, u64::MAX]), g.rng.gen_range(0..2)),
@@ -118,8 +131,16 @@ fn full_cmd(g: &mut Gen) -> (String, Command) {
                 ("return redis.call('NOSUCH')", 0), ("return 1 +", 0), ("error('boom')", 0), ("return redis.call('ZADD', KEYS[1], 'XX', 1, 'q')", 1),
                 ("return redis.call('SETRANGE', KEYS[1], 536870912, 'x')", 1), ("redis.call('SET', KEYS[1], 'v'); return redis.call('INCR', KEYS[2])", 2), ("return redis.call('MSET', KEYS[1], 'v', KEYS[2])", 2)]);
               Command::Eval { script: script.to_string(), keys: (0..nk).map(|_| k(g)).collect(), args: vec![] } }
-        _ => g.pick(&[Command::ScriptLoad("return 1".into()), Command::ScriptExists(vec!["abc".into()]), Command::ScriptFlush,
-                      Command::EvalSha { sha1: "ffffffffffffffffffffffffffffffffffffffff".into(), keys: vec![], args: vec![] }]),
+        _ => { // SCRIPT LOAD, then EVALSHA of what was loaded (a writing script, a failing one), SCRIPT EXISTS / FLUSH, unknown sha
+               let scripts = ["return redis.call('INCR', KEYS[1])", "return redis.call('LPUSH', KEYS[1], 'x')", "return redis.call('GET', KEYS[1])", "return 1"];
+               match (g.rng.gen_range(0..6), loaded_sha) {
+                   (0 | 1, _) => Command::ScriptLoad(g.pick(&scripts).to_string()),
+                   (2 | 3, Some(sha)) => Command::EvalSha { sha1: sha.clone(), keys: vec![k(g)], args: vec![] },
+                   (4, Some(sha)) => Command::ScriptExists(vec![sha.clone(), "abc".into()]),
+                   (4, None) => Command::ScriptExists(vec!["abc".into()]),
+                   (5, _) => if g.chance(0.3) { Command::ScriptFlush } else { Command::EvalSha { sha1: "ffffffffffffffffffffffffffffffffffffffff".into(), keys: vec![], args: vec![] } },
+                   _ => Command::ScriptLoad("return 1".into()),
+               } }
     };
     (format!("{:?}", c), c)
 }
@@ -131,6 +152,7 @@ fn main() {
     out.nontrivial_rule = "per case: (A) setup of a keyspace holding every type (some keys with TTL) + 10-25 model commands in error-provoking mode (keys drawn uniformly => wrong-type operands, extreme integers => overflow, out-of-range indices, invalid expire times, multi-element commands with one bad operand) compared with the Coq model; (B) the same setup + 25-40 commands over the FULL command set (model commands, INCRBYFLOAT, SETBIT/GETBIT, SPOP, SORT [STORE], SCAN family, BatchSet/BatchGet, stubs, ACL/CONFIG/CLIENT/OBJECT/DEBUG, WATCH/EXEC/DISCARD, EVAL/EVALSHA/SCRIPT); before/after every command that replied an error or is_read_only() the visible keyspace (TYPE, exact stored value, PTTL of all 7 keys) is compared; non-trivial = the case contained at least 3 error replies of at least 2 kinds and 3 read-only commands on existing keys; distinct by step text".into();
     std::panic::set_hook(Box::new(|_| {}));
     let mut vseen: std::collections::BTreeMap<String, u64> = Default::default();
+    let shared_cache = redis_sim::redis::lua::SharedScriptCache::new();
     let range: Vec<u64> = match args.only { Some(i) => vec![i], None => (0..args.n).collect() };
     for i in range {
         let mut rng = case_rng(args.seed, i);
@@ -183,6 +205,11 @@ fn main() {
         let term = clist(terms.iter(), |t| t.clone());
         // ------------------------------------------------ part B: the full command set, implementation only
         let mut imb = Impl::new();
+        // half of the part-B executors share ONE script cache per process (as the shards of a node do): what an earlier
+        // case loaded or flushed is then visible here
+        if i % 2 == 1 { imb.ex = redis_sim::redis::CommandExecutor::with_shared_script_cache(shared_cache.clone()); }
+        let mut loaded_sha: Option<String> = None;
+        let mut multi_left: Option<u32> = None;
         let mut traceb: Vec<serde_json::Value> = Vec::new();
         g.now = 0; g.pending.clear(); g.state = vec![]; g.stale = vec![];
         for c in &pre { let _ = imb.exec(&c.to_rust()); traceb.push(json!({"setup": c.to_coq()})); }
@@ -193,7 +220,13 @@ fn main() {
                 if let Err(p) = if lazy { imb.set_time_lazy(t) } else { imb.set_time(t) } { viol(&mut out, &mut vseen, "panic", i, "the implementation panicked when the clock was set", json!({"clock": t, "panic": p, "steps_before": traceb})); break; } g.now = t;
                 if let Ok(v) = visible(&mut imb) { g.deadlines = v.snap.iter().filter(|e| e.2 >= 0).map(|e| g.now + e.2 as u64).collect(); g.stale = v.stale.clone(); g.state = v.snap.clone(); traceb.push(json!({"clock": t, "eviction_sweep": !lazy, "lazily_expired_now": v.stale})); }
                 continue; }
-            let (text, c) = full_cmd(&mut g);
+            // executor-level transactions: MULTI, 2-4 queued commands (QUEUED, nothing may change), then EXEC or DISCARD
+            let (text, c) = match multi_left {
+                Some(0) => { multi_left = None; let c = if g.chance(0.7) { Command::Exec } else { Command::Discard }; (format!("{:?}", c), c) }
+                Some(n) => { multi_left = Some(n - 1); full_cmd(&mut g, &loaded_sha) }
+                None if g.chance(0.04) => { multi_left = Some(g.rng.gen_range(2..=4)); (String::from("Multi"), Command::Multi) }
+                None => full_cmd(&mut g, &loaded_sha),
+            };
             let before = match visible(&mut imb) { Ok(v) => v, Err(p) => { viol(&mut out, &mut vseen, "panic", i, "the implementation panicked while the keyspace was read", json!({"panic": p, "steps_before": traceb})); break; } };
             let name = format!("{:?}", c).split(|ch: char| !ch.is_alphanumeric()).next().unwrap_or("?").to_string();
             let r = match imb.exec(&c) { Ok(r) => r, Err(p) => {
@@ -202,7 +235,10 @@ fn main() {
             let after = match visible(&mut imb) { Ok(v) => v, Err(p) => { viol(&mut out, &mut vseen, "panic", i, "the implementation panicked while the keyspace was read", json!({"after": text, "panic": p, "steps_before": traceb})); break; } };
             check_step(&mut out, &mut vseen, i, &text, &name, &c, &r, &before, &after, &traceb, &mut nerr, &mut nro, &mut kinds);
             out.count(&format!("B:cmd:{}", name));
-            traceb.push(json!({"command": text, "reply": format!("{:?}", r)}));
+            if let (Command::ScriptLoad(_), RespValue::BulkString(Some(sha))) = (&c, &r) { loaded_sha = Some(String::from_utf8_lossy(sha).to_string()); }
+            if matches!(c, Command::ScriptFlush) { loaded_sha = None; }
+            if matches!(c, Command::Exec | Command::Discard) || (matches!(c, Command::Multi) && is_err(&r)) { multi_left = None; }
+            traceb.push(json!({"command": text, "reply": format!("{:.300}", format!("{:?}", r))}));
             let snap = &after.snap;
             g.state = snap.clone(); g.stale = after.stale.clone();
             g.deadlines = snap.iter().filter(|e| e.2 >= 0).map(|e| g.now + e.2 as u64).collect();
